@@ -93,6 +93,8 @@ Fixpoint parse_ops (n : nat) (fs : list field) : option (list cop) :=
     | FZ 1 :: FZ rec :: FZ t :: FB bs :: FZ st :: r => cont (CLoad (negb (rec =? 0)) t bs st) r
     | FZ 2 :: r0 =>
       match parse_path r0 with Some (p, FZ st :: FB out :: r) => cont (CMarshal p st out) r | _ => None end
+    | FZ 8 :: r0 =>   (* NewTypedNode over the target's children: same observation as Marshal *)
+      match parse_path r0 with Some (p, FZ st :: FB out :: r) => cont (CMarshal p st out) r | _ => None end
     | FZ 3 :: r0 =>
       match parse_path r0 with
       | Some (p, r1) =>
